@@ -15,6 +15,7 @@ import (
 
 	plush "github.com/gobuffalo/plush/v5"
 	"github.com/gobuffalo/plush/v5/ast"
+	"github.com/gobuffalo/plush/v5/helpers/hctx"
 )
 
 // ---------------------------------------------------------------------------------------------------------
@@ -68,6 +69,7 @@ var c13PartialsB = map[string]string{
 	"p_if":      `<%= if (x) { %>on<% } else { %>off<% } %>`,
 	"p_fn":      `<% let pf = fn(a) { return a * 2 } %><%= pf(x) %>`,
 	"p_missing": `[found <%= n %>]`,
+	"p_rec":     `[<%= x %>:<%= if (x > 0) { %><%= partial("p_rec", {x: x - 1}) %>;<% } %><%= x %>]`,
 }
 
 var c13Partials = map[string]string{
@@ -79,6 +81,8 @@ var c13Partials = map[string]string{
 	"p_err":    `<%= fail("in partial") %>`,
 	"p_if":     `<%= if (x) { %>yes<% } else { %>no<% } %>`,
 	"p_fn":     `<% let pf = fn(a) { return a + 1 } %><%= pf(x) %>`,
+	// a partial that includes itself (a tree, a menu, a thread): every level prints its x, the nested level, its x again
+	"p_rec": `(<%= x %><%= if (x > 0) { %><%= partial("p_rec", {x: x - 1}) %><% } %><%= x %>)`,
 }
 
 // c13EnvShared returns the stateless part of an environment: plain data and helpers without state. Every call
@@ -128,12 +132,81 @@ func c13SetV(coll, at, v interface{}) (string, error) {
 	return "", nil
 }
 
+// c13Attrs prints an options map as attributes, sorted by name.
+func c13Attrs(m map[string]interface{}) string {
+	ks := make([]string, 0, len(m))
+	for k := range m {
+		ks = append(ks, k)
+	}
+	sort.Strings(ks)
+	var sb strings.Builder
+	for _, k := range ks {
+		sb.WriteString(" " + k + `="` + template.HTMLEscapeString(fmt.Sprint(m[k])) + `"`)
+	}
+	return sb.String()
+}
+
+// Helpers written the way the tag and form helpers of the buffalo ecosystem are: they take a trailing options
+// map (which a call may leave out, like the trailing HelperContext) and work IN the map they are handed - their
+// own class is appended, defaults are filled in, consumed keys are deleted, a counter is kept. Each is a pure
+// function of its arguments: it keeps nothing between calls, and what it prints is determined by the label /
+// name, the options it was given and its block.
+func c13Btn(label string, opts map[string]interface{}) template.HTML {
+	cls := "btn"
+	if c, ok := opts["class"].(string); ok && c != "" {
+		cls = c + " btn"
+	}
+	opts["class"] = cls
+	return template.HTML("<button" + c13Attrs(opts) + ">" + template.HTMLEscapeString(label) + "</button>")
+}
+
+func c13Field(name string, opts hctx.Map) template.HTML {
+	lbl := name
+	if l, ok := opts["label"]; ok {
+		lbl = fmt.Sprint(l)
+		delete(opts, "label")
+	}
+	if _, ok := opts["id"]; !ok {
+		opts["id"] = "f-" + name
+	}
+	if _, ok := opts["type"]; !ok {
+		opts["type"] = "text"
+	}
+	opts["tabindex"] = len(opts)
+	return template.HTML("<label>" + template.HTMLEscapeString(lbl) + "</label><input" + c13Attrs(opts) + ">")
+}
+
+func c13TagB(name string, opts map[string]interface{}, help plush.HelperContext) (template.HTML, error) {
+	n, _ := opts["n"].(int)
+	opts["n"] = n + 1
+	body := ""
+	if help.HasBlock() {
+		s, err := help.Block()
+		if err != nil {
+			return "", err
+		}
+		body = s
+	}
+	return template.HTML("<" + name + c13Attrs(opts) + ">" + body + "</" + name + ">"), nil
+}
+
+// c13Optn takes nothing but the options: it counts the entries it was given and marks the map as seen.
+func c13Optn(opts map[string]interface{}) string {
+	n := len(opts)
+	opts["seen"+strconv.Itoa(n)] = true
+	return "#" + strconv.Itoa(n)
+}
+
 func c13EnvSharedBase(name string) map[string]interface{} {
 	d := map[string]interface{}{
-		"setv": c13SetV,
-		"fail": func(msg string) (string, error) { return "", fmt.Errorf("failed: %s", msg) },
-		"up":   func(s string) string { return strings.ToUpper(s) },
-		"add":  func(a, b int) int { return a + b },
+		"setv":  c13SetV,
+		"btn":   c13Btn,
+		"field": c13Field,
+		"tagb":  c13TagB,
+		"optn":  c13Optn,
+		"fail":  func(msg string) (string, error) { return "", fmt.Errorf("failed: %s", msg) },
+		"up":    func(s string) string { return strings.ToUpper(s) },
+		"add":   func(a, b int) int { return a + b },
 		"wrap": func(help plush.HelperContext) (template.HTML, error) {
 			s, err := help.Block()
 			if err != nil {
@@ -517,6 +590,10 @@ type c13GenOpt struct {
 	// evaluated element), update it in place - element assignment, accumulation in a loop, a Go helper that
 	// stores into its argument - and read it back. A value the evaluator hands out for a literal must be the
 	// template's own: if it shared storage with the parsed program, the next execution would see the update.
+	// Also: calls of Go helpers that work in the options map they are handed (btn, field, tagb, optn), with the
+	// map left out, given as a literal, or given as a variable; and statements that start another execution of
+	// the template that is running (again(k), partial("self", …), the self-including partial p_rec) and read
+	// their own scope afterwards. These need the names lvl / again / self, which only C13's contexts bind.
 	Wide bool
 }
 
@@ -576,6 +653,9 @@ func (g *c13Gen) Program() (string, []string) {
 		arrs:  []string{"xs", "ss", "ys"},
 		anys:  []string{"u.Age", "u.Name"},
 	}
+	if g.opt.Wide {
+		sc.ints = append(sc.ints, "lvl")
+	}
 	var sb strings.Builder
 	g.block(&sb, sc, g.r.Range(1, 6))
 	ks := make([]string, 0, len(g.kinds))
@@ -597,9 +677,18 @@ func (g *c13Gen) block(sb *strings.Builder, sc *c13Scope, n int) {
 func (g *c13Gen) stmt(sb *strings.Builder, sc *c13Scope) {
 	r := g.r
 	deep := sc.depth >= 3
-	if g.opt.Wide && !sc.pure && r.Chance(7) {
-		g.mutateLocal(sb, sc)
-		return
+	if g.opt.Wide && !sc.pure {
+		switch k := r.Intn(100); {
+		case k < 7:
+			g.mutateLocal(sb, sc)
+			return
+		case k < 12:
+			g.optsHelper(sb, sc)
+			return
+		case k < 14 && !deep:
+			g.reenter(sb, sc)
+			return
+		}
 	}
 	for tries := 0; tries < 20; tries++ {
 		k := r.Intn(100)
@@ -926,6 +1015,12 @@ func (g *c13Gen) fnCall(sc *c13Scope, f c13Fn, d int) string {
 
 func (g *c13Gen) partialCall(sc *c13Scope) string {
 	r := g.r
+	if g.opt.Wide && r.Chance(10) {
+		// a partial that includes itself x times (x small): with the cache on, one template value is executed
+		// again while an execution of it is under way
+		g.use("partial-recursive")
+		return `partial("p_rec", {x: ` + Pick(r, []string{"0", "1", "2", "3", "lvl", "len(ss)", "len(u.Tags)"}) + `})`
+	}
 	switch r.Intn(9) {
 	case 0:
 		return `partial("p_plain", {x: ` + g.anyExpr(sc, 1) + `})`
@@ -1214,6 +1309,132 @@ func (g *c13Gen) updates(sb *strings.Builder, sc *c13Scope, q string, n int, isI
 		sb.WriteString("<%= for (" + v + ") in " + q + " { %><%= " + v + " %>,<% } %>")
 	default:
 		sb.WriteString("<%= " + q + " %>")
+	}
+}
+
+// optsLit returns a small options literal for the helpers btn / field / tagb / optn.
+func (g *c13Gen) optsLit(sc *c13Scope) string {
+	r := g.r
+	var parts []string
+	for _, k := range []string{"class", "id", "label", "n", "type"} {
+		if !r.Chance(35) {
+			continue
+		}
+		var v string
+		switch k {
+		case "n":
+			v = g.intExpr(sc, 0)
+		default:
+			v = g.strExpr(sc, 1)
+		}
+		parts = append(parts, k+": "+v)
+	}
+	return "{" + strings.Join(parts, ", ") + "}"
+}
+
+// optsHelper emits calls of Go helpers that take a trailing options map and work in it: with the map left out
+// (the evaluator supplies one), with a literal (evaluated for this call), and with a variable of the template
+// (then, and only then, a later call sees what an earlier one stored).
+func (g *c13Gen) optsHelper(sb *strings.Builder, sc *c13Scope) {
+	r := g.r
+	call := func(opts string) string {
+		// opts: "" = left out
+		arg := func(first string) string {
+			if opts == "" {
+				return first
+			}
+			if first == "" {
+				return opts
+			}
+			return first + ", " + opts
+		}
+		switch r.Intn(4) {
+		case 0:
+			return "btn(" + arg(g.strExpr(sc, 1)) + ")"
+		case 1:
+			return "field(" + arg(Pick(r, []string{`"name"`, `"q"`, "s", "sz"})) + ")"
+		case 2:
+			return "optn(" + arg("") + ")"
+		default:
+			return "tagb(" + arg(Pick(r, []string{`"div"`, `"p"`, `"li"`})) + ")"
+		}
+	}
+	n := r.Range(1, 3)
+	switch k := r.Intn(10); {
+	case k < 5:
+		g.use("opts-helper-options-omitted")
+		for i := 0; i < n; i++ {
+			sb.WriteString("<%= " + call("") + " %>")
+		}
+	case k < 7:
+		g.use("opts-helper-options-literal")
+		for i := 0; i < n; i++ {
+			sb.WriteString("<%= " + call(g.optsLit(sc)) + " %>")
+			if r.Bool() {
+				sb.WriteString("<%= " + call("") + " %>")
+			}
+		}
+	case k < 8 && sc.depth < 3:
+		// block form: the options and the helper context are both left out, or only the helper context
+		g.use("opts-helper-with-block")
+		o := ""
+		if r.Bool() {
+			o = ", " + g.optsLit(sc)
+		}
+		sb.WriteString("<%= tagb(" + Pick(r, []string{`"div"`, `"ul"`}) + o + ") { %>")
+		g.sub(sb, sc, nil)
+		sb.WriteString("<% } %><%= tagb(\"i\") %>")
+	default:
+		g.use("opts-helper-options-variable")
+		o := g.fresh("o")
+		sb.WriteString("<% let " + o + " = " + g.optsLit(sc) + " %>")
+		for i := 0; i < n; i++ {
+			sb.WriteString("<%= " + call(o) + " %>")
+		}
+		sb.WriteString("<%= " + call("") + " %><%= " + o + `["class"] %>`)
+	}
+}
+
+// reenter emits a statement that starts another execution of the running template - the helper again(k) (the
+// same text on the data set k places further, one level down) or partial("self", …) (the feeder serves the
+// template's own text) - and afterwards reads the scope it was started from. lvl is 2 at the top, one less on
+// every level; at level 0 again() prints a dot and starts nothing.
+func (g *c13Gen) reenter(sb *strings.Builder, sc *c13Scope) {
+	r := g.r
+	read := func() string {
+		switch r.Intn(4) {
+		case 0:
+			return "<%= " + Pick(r, sc.ints) + " %>"
+		case 1:
+			return "<%= " + Pick(r, sc.strs) + " %>"
+		default:
+			return "<%= lvl %>"
+		}
+	}
+	k := Pick(r, []string{"0", "0", "0", "1", "2", "3"})
+	switch c := r.Intn(10); {
+	case c < 4:
+		g.use("reenter-again")
+		sb.WriteString("<%= lvl %>(<%= again(" + k + ") %>)" + read())
+	case c < 5:
+		g.use("reenter-again-in-let")
+		v := g.fresh("w")
+		sb.WriteString("<% let " + v + " = again(" + k + ") %>" + read() + "<%= " + v + " %>")
+		sc.anys = append(sc.anys, v)
+	case c < 6:
+		g.use("reenter-again-in-block")
+		sb.WriteString("<%= " + Pick(r, []string{"wrap()", "twice()", `tagb("b")`}) + " { %><%= again(" + k + ") %>" + read() + "<% } %>" + read())
+	case c < 7:
+		g.use("reenter-again-in-loop")
+		v := g.fresh("v")
+		sb.WriteString("<%= for (" + v + ") in " + Pick(r, []string{"[0, 1]", "until(2)", "ss"}) + " { %><%= again(" + k + ") %>" + read() + "<%= " + v + " %>,<% } %>")
+	default:
+		g.use("reenter-self-partial")
+		data := "{lvl: lvl - 1}"
+		if r.Chance(30) {
+			data = "{lvl: lvl - 1, s: " + g.strExpr(sc, 1) + "}"
+		}
+		sb.WriteString("<%= lvl %>(<%= if (lvl > 0) { %><%= partial(\"self\", " + data + ") %><% } %>)" + read())
 	}
 }
 
